@@ -84,6 +84,8 @@ def make_c01_replay(ref, v, pid='C01'):
             'call': v['call'], 'mode': v.get('mode', 'index'), 'expected': expected, 'structure': ref.describe()}
     if v.get('history'):
         case['history'] = v['history']          # box reads made, in order, on one retained level-data object; the last one is judged
+    if v.get('prefix'):
+        case['prefix'] = v['prefix']            # the calls the sweep made before the failing one on the same reader (same process)
     with open(os.path.join(d, 'case.json'), 'w') as f:
         json.dump(case, f, indent=1)
     common.write_replay_stub(d)
@@ -178,6 +180,14 @@ def replay_c01(d, case):
     env = {'np': np}
     fsel, lv, bsel = (eval(e, env) for e in case['call'])
     exp = case['expected']
+    if case.get('prefix'):
+        # first the call on its own (fresh reader), then in the sweep's order: a failure that needs the earlier calls is
+        # a failure of the code all the same, it is reported with that note
+        for f_, l_, b_ in case['prefix']:
+            try:
+                pck[eval(f_, env)][eval(l_, env)][eval(b_, env)]
+            except Exception:
+                pass
     try:
         if case.get('history'):
             ld = pck[fsel][lv]
@@ -926,8 +936,16 @@ def replay_c18(d, case):
                         return True, 'unpickled reader reads other data for level %d box %d' % (l, b)
             return False, 'unpickled reader equal'
         from amr_kitchen.menu.menu import Menu
+        info0 = dict(Menu.field_info)          # the database as shipped: Menu adds unknown names to it while it runs
         min_max = 'min_max' in tool
         finest = 'finest' in tool
+        if 'history' in tool:
+            with contextlib.redirect_stdout(io.StringIO()), contextlib.redirect_stderr(io.StringIO()):
+                try:
+                    Menu('other', min_max=True)
+                    Menu('other')
+                except Exception:
+                    pass
         with contextlib.redirect_stdout(buf), contextlib.redirect_stderr(io.StringIO()):
             Menu('plt', min_max=min_max, finest_lv=finest)
         out = buf.getvalue()
@@ -956,7 +974,7 @@ def replay_c18(d, case):
                     return True, 'field %r shows %s, expected %s %s' % (f, cells[f][:2], '{:.3}'.format(emin), '{:.3}'.format(emax))
             return False, 'table equal'
         # default listing: every field exactly once, as its class or as a species (the same oracle as the engine's)
-        info = Menu.field_info
+        info = info0
 
         def class_key(field_info, f):
             for key in field_info:
